@@ -27,10 +27,11 @@ AddNode ==
     /\ Len(s.nodes) < MaxNodes
     /\ \E par \in Nodes(s), kind \in Kinds, rev \in BOOLEAN, N \in NVals, z \in ZetaVals, sec \in SecVals,
           h \in HVals, d \in Demands, fd \in FdVals, te \in TeVals, dT \in DtVals :
-        /\ (kind # "pipe" => (N = 0 /\ sec = 1 /\ z > 0 /\ fd = 1 /\ te = 1))
+        /\ (kind \notin {"pipe", "pump"} => (N = 0 /\ sec = 1 /\ z > 0 /\ fd = 1 /\ te = 1))
         /\ (kind = "pipe" => N > 0)
+        /\ (kind = "pump" => (N \in {160, 320} /\ z \in {1, 2} /\ sec = 1 /\ fd = 1 /\ te = 1 /\ ~rev))   \* N/80 = shut-off head in bar
         /\ (kind # "heat_exchanger" => dT = 0)
-        /\ s' = [s EXCEPT !.nodes = Append(@, [par |-> par, kind |-> kind, rev |-> rev, N |-> N, zeta |-> z,
+        /\ s' = [s EXCEPT !.nodes = Append(@, [par |-> par, kind |-> kind, rev |-> rev, N |-> IF kind = "pump" THEN N \div 80 ELSE N, zeta |-> z,
                                                 sec |-> sec, h |-> h, d |-> d, fd |-> fd, te |-> te, dT |-> dT])]
     /\ steps' = steps + 1
 
@@ -84,6 +85,7 @@ Emit == (EmitOn /\ Admissible(s)) =>
                    exp |-> [p |-> [k \in Nodes(s) |-> P(s, k)], m |-> [k \in Nodes(s) |-> Flow(s, k)]]]))
 
 KindsAll == {"pipe", "valve", "heat_exchanger"}
+KindsPump == {"pipe", "valve", "heat_exchanger", "pump"}
 DemandsDef == {-1, 0, 1, 2, 4}
 DemandsSmall == {0, 1, 2}
 ChordFlowsSmall == {-1, 2}
